@@ -165,10 +165,21 @@ let run_derive e g x y =
   else hex_of_bytes (dshow e g x) ^ " " ^ hex_of_bytes (dshow e g y) ^ " " ^ bool_s (deq e g x y)
 
 (* ---- json: value syntax of harness/src/bin/c19/json.rs ---- *)
+(* floats: F<16 hex digits of the bit pattern>:<hex of the decimal token>.  The model carries the
+   token opaquely (JFloat); the bit pattern is remembered only to print the value back. *)
+let float_bits : (n list, string) Hashtbl.t = Hashtbl.create 16
+
 let rec parse_j s i : jv =
   let c = s.[!i] in incr i;
   match c with
   | 'n' -> JNull | 't' -> JBool true | 'f' -> JBool false
+  | 'F' ->
+    let bits = String.sub s !i 16 in
+    i := !i + 16;
+    if !i < String.length s && s.[!i] = ':' then incr i;
+    let tok = bytes_of_hex (parse_hex s i) in
+    Hashtbl.replace float_bits tok bits;
+    JFloat tok
   | 'i' -> JInt (z_of_string (parse_num s i))
   | 's' -> JStr (bytes_of_hex (parse_hex s i))
   | 'a' ->
@@ -195,14 +206,36 @@ let rec parse_j s i : jv =
 let rec show_j = function
   | JNull -> "n" | JBool true -> "t" | JBool false -> "f"
   | JInt z -> "i" ^ string_of_z z
+  | JFloat tok -> "F" ^ (match Hashtbl.find_opt float_bits tok with Some b -> b | None -> "?unknown-token")
   | JStr s -> "s" ^ hex_of_bytes s
   | JArr l -> "a[" ^ String.concat "," (List.map show_j l) ^ "]"
   | JObj kv -> "o[" ^ String.concat "," (List.map (fun (k, v) -> hex_of_bytes k ^ ":" ^ show_j v) kv) ^ "]"
 
 let run_json v =
+  Hashtbl.reset float_bits;
   let v = parse_j v (ref 0) in
+  if not (wf v) then "model-premise-failed: a float token is not a non-integer number token" else
   let text = ser v in
   hex_of_bytes text ^ " " ^ (match de text with Some b -> show_j b | None -> "de-failed")
+
+(* a re-spelling (white space, escapes, exponent spelling) of the text of a value: the model reader
+   only reads the compact syntax, so the expected answer is the value itself - the identity the
+   property demands of every spelling of ser(v) *)
+let run_jsontext v text =
+  Hashtbl.reset float_bits;
+  let v = parse_j v (ref 0) in
+  text ^ " " ^ show_j v
+
+(* typed level: the harness supplies the JSON value the documented encoding gives; the Coq writer
+   and reader run on it, the typed value is echoed when the reader returns the encoding unchanged *)
+let run_jtyped value enc =
+  Hashtbl.reset float_bits;
+  let j = parse_j enc (ref 0) in
+  if not (wf j) then "model-premise-failed: a float token is not a non-integer number token" else
+  let text = ser j in
+  match de text with
+  | Some b when b = j -> hex_of_bytes text ^ " " ^ value
+  | _ -> "de-failed"
 
 let run (line : string) : string =
   match String.split_on_char ' ' line with
@@ -230,6 +263,8 @@ let run (line : string) : string =
      | "str" -> run_str (a 0) (cps (a 1)) (cps (a 2)) (int_of_string (a 3)) (int_of_string (a 4)) (n_of_int (int_of_string (a 5)))
      | "derive" -> run_derive (a 0) (a 1) (a 2) (a 3)
      | "json" -> run_json (a 0)
+     | "jsontext" -> run_jsontext (a 0) (a 1)
+     | "jtyped" -> run_jtyped (a 2) (a 3)
      | _ -> "unknown-function " ^ f)
 
 let () =
